@@ -882,7 +882,12 @@ static ares_status_t process_answer(ares_channel_t      *channel,
       !(conn->flags & ARES_CONN_FLAG_TCP) &&
       !(channel->flags & ARES_FLAG_IGNTC)) {
     query->using_tcp = ARES_TRUE;
-    status = ares_append_requeue(requeue, query, NULL);
+    /* A query that is not to be retried (a probe of a failed server) was
+     * sent for this server's sake: take it to TCP on the same server.  Sent
+     * to whichever server is best, it would say nothing about this one and
+     * leave it marked as being probed for good. */
+    status =
+      ares_append_requeue(requeue, query, query->no_retries ? server : NULL);
     /* Status will reflect success except on memory error, which is good since
      * requeuing to TCP is ok */
     goto cleanup;
